@@ -20,6 +20,10 @@ class Infeasible(Exception):
     pass
 
 
+class NeedsDecision(Exception):
+    """Raised in frozen mode when evaluating something would need a fork."""
+
+
 class _Return(Exception):
     def __init__(self, value: Any):
         self.value = value
@@ -104,6 +108,13 @@ class Path:
         """n-way choice; memoised per atom."""
         if atom in self.memo:
             return self.memo[atom]
+        if getattr(self, "frozen", False):
+            raise NeedsDecision(atom)
+        cap = getattr(self, "capture", None)
+        if cap is not None:
+            # describe the condition without forking: the first alternative is assumed, nothing is recorded
+            cap.append((atom, None if label is None else label[0]))
+            return 0
         if self.pos < len(self.prefix):
             c = self.prefix[self.pos]
         else:
@@ -147,6 +158,7 @@ class Run:
         self.globals_state: Dict[str, Any] = {}
         self.call_stack: List[str] = []
         self.fresh_counter = 0
+        self.atom_info: Dict[Any, Any] = {}
 
     # ------------------------------------------------------------------ decisions
     def decide(self, atom: Any) -> bool:
